@@ -681,6 +681,23 @@ func (e *Engine) Check(c *core.Ctx, filter func(Input) bool) (*core.Outcome, err
 	if c.Replay != nil {
 		return e.replay(c)
 	}
+	// seeded assembler: random compositions of the stress fragments (a workload generator)
+	if filter == nil {
+		nAsm := 14
+		if c.Tier == "thorough" {
+			nAsm = 200
+		}
+		adir := filepath.Join(e.S.Dir, "assembled")
+		_ = os.MkdirAll(adir, 0o755)
+		for k := 0; k < nAsm; k++ {
+			p := filepath.Join(adir, fmt.Sprintf("asm-%d-%d.yml", c.Seed, k))
+			doc := Assemble(rand.New(rand.NewSource(c.Seed*1_000_003 + int64(k))))
+			if err := os.WriteFile(p, []byte(doc), 0o644); err != nil {
+				return nil, build.Toolf("assembler: %v", err)
+			}
+			corpus = append(corpus, Input{Name: fmt.Sprintf("assembled/%s [default]", filepath.Base(p)), In: GenInput{Spec: p, Config: defaultConfig}, Class: "assembled"})
+		}
+	}
 
 	// references: one fresh process each
 	refScs := make([]Scenario, len(corpus))
@@ -711,10 +728,10 @@ func (e *Engine) Check(c *core.Ctx, filter func(Input) bool) (*core.Outcome, err
 
 	// measured scenarios
 	rng := rand.New(rand.NewSource(c.Seed))
-	perSmall, perBig, perStress := 6, 1, 30
+	perSmall, perBig, perStress, perAsm := 5, 1, 20, 8
 	raceShare := 5 // one in raceShare scenarios also runs in the race binary
 	if c.Tier == "thorough" {
-		perSmall, perBig, perStress = 60, 4, 400
+		perSmall, perBig, perStress, perAsm = 60, 4, 400, 30
 		raceShare = 6
 	}
 	type item struct {
@@ -729,6 +746,9 @@ func (e *Engine) Check(c *core.Ctx, filter func(Input) bool) (*core.Outcome, err
 		}
 		if in.Class == "stress" {
 			n = perStress
+		}
+		if in.Class == "assembled" {
+			n = perAsm
 		}
 		for i := 0; i < n; i++ {
 			sc := e.sample(rng, in, usable, i, i%4 != 3)
@@ -1075,7 +1095,27 @@ func (e *Engine) replay(c *core.Ctx) (*core.Outcome, error) {
 }
 
 var scratchRe = regexp.MustCompile(`^.*/verif\.[A-Za-z0-9]+\.\d+/ogen/`)
+var asmRe = regexp.MustCompile(`/assembled/asm-(-?\d+)-(\d+)\.yml$`)
 
+// rebase maps a spec path of the run that found a violation to this run's scratch copy; assembled specs
+// are regenerated from their (seed, index), of which they are a pure function.
 func (e *Engine) rebase(p string) string {
+	if m := asmRe.FindStringSubmatch(p); m != nil {
+		var seed, k int64
+		fmt.Sscan(m[1], &seed)
+		fmt.Sscan(m[2], &k)
+		adir := filepath.Join(e.S.Dir, "assembled")
+		_ = os.MkdirAll(adir, 0o755)
+		np := filepath.Join(adir, filepath.Base(p))
+		_ = os.WriteFile(np, []byte(Assemble(rand.New(rand.NewSource(seed*1_000_003+k)))), 0o644)
+		return np
+	}
+	if strings.HasPrefix(p, build.VerifDir+"/") || !scratchRe.MatchString(p) {
+		// a world under /verif/worlds: the same relative path under this run's VERIF_DIR
+		if i := strings.Index(p, "/worlds/"); i >= 0 {
+			return filepath.Join(build.VerifDir, p[i+1:])
+		}
+		return p
+	}
 	return scratchRe.ReplaceAllString(p, e.S.Src+"/")
 }
